@@ -284,6 +284,17 @@ func (b *BloomSearchEngine) Stop(ctx context.Context) error {
 	stopAfter := context.AfterFunc(ctx, b.flushCancel)
 
 	b.stateMu.Lock()
+	if !b.started && !b.stopped {
+		// Never started: IngestRows and Flush still accept work (it is
+		// processed once Start runs), so requests may be sitting in
+		// ingestChan. Run the workers for the shutdown so those accepted
+		// batches are drained, flushed and answered like any others instead
+		// of being dropped silently.
+		b.started = true
+		b.wg.Add(2)
+		go b.ingestWorker()
+		go b.flushWorker()
+	}
 	b.stopped = true
 	b.stateMu.Unlock()
 	verifPoint("stop.flagged")
